@@ -25,6 +25,7 @@ type state struct {
 	AssumeFailed bool     `json:"assume_failed"`
 	Panicked     string   `json:"panicked"`
 	KnownHit     []string `json:"known_hit"`
+	KnownFailed  []string `json:"known_failed"`
 	tmp          []string
 }
 
@@ -120,10 +121,22 @@ func Assume(b bool) {
 func Assert(b bool, label string) {
 	if !b {
 		mu.Lock()
-		st.AssertFailed = append(st.AssertFailed, label)
+		hit := false
+		for id, on := range knownActive {
+			if on {
+				hit = true
+				st.KnownHit = append(st.KnownHit, id)
+				st.KnownFailed = append(st.KnownFailed, id+": "+label)
+			}
+		}
+		if !hit {
+			st.AssertFailed = append(st.AssertFailed, label)
+		}
 		mu.Unlock()
 	}
 }
+
+var knownActive = map[string]bool{}
 
 func Reach(label string) {
 	mu.Lock()
@@ -133,11 +146,9 @@ func Reach(label string) {
 
 // Known marks the current inputs as belonging to known-finding class id when b holds.
 func Known(id string, b bool) {
-	if b {
-		mu.Lock()
-		st.KnownHit = append(st.KnownHit, id)
-		mu.Unlock()
-	}
+	mu.Lock()
+	knownActive[id] = b
+	mu.Unlock()
 }
 
 func Event(label string, args ...interface{}) {
@@ -223,6 +234,9 @@ func Run(harness func()) (violated bool, summary string) {
 	}
 	if len(st.AssertFailed) > 0 {
 		return true, fmt.Sprintf("assertions failed: %v", st.AssertFailed)
+	}
+	if len(st.KnownFailed) > 0 {
+		return true, fmt.Sprintf("assertions failed inside known-finding classes: %v", st.KnownFailed)
 	}
 	return false, "ok"
 }
